@@ -1,14 +1,264 @@
+// qm_thread_full.h -- QObject / QEvent / QCoreApplication / QThread / mutexes / atomics for the concurrency harnesses.
+//
+// Scheduling model ("nested preemption"): the model is sequential C.  Every synchronisation primitive is a YIELD POINT that
+// calls the harness scheduler (qm_yield_hook), which may run pending steps of OTHER model threads to completion, nested
+// inside the current one (they yield again, recursively, up to a depth bound): thread A can be preempted inside its
+// critical section by a complete log call of B, by worker event-loop steps, etc.  A nested step that would have to BLOCK
+// on a mutex held by a suspended outer thread is pruned by assumption at the lock: it has produced no shared effect yet
+// (in the code under test a lock acquisition is the first shared action of every entry point), so the schedule in which
+// it starts later is equivalent and is covered by another choice.  Not covered: interleavings that need two threads to
+// be suspended inside each other's steps alternately (non-nested), weak memory, real time.
 #pragma once
-// placeholder: extended below once the concurrency model exists
+#include <functional>
+
+inline int qm_cur_tid = 1;                       // running model thread (1 = main thread)
+inline void (*qm_yield_hook)(int) = nullptr;     // harness scheduler
+enum { QM_Y_LOCK = 1, QM_Y_UNLOCK = 2, QM_Y_SLEEP = 3, QM_Y_WAIT = 4, QM_Y_POST = 5, QM_Y_ATOMIC = 6, QM_Y_USER = 7 };
+static inline void qm_yield(int point) { if (qm_yield_hook) qm_yield_hook(point); }
+
+class QThread; class QEvent; class QCoreApplication;
+inline QThread *qm_main_qthread = nullptr;
+
 class QObject
 {
 public:
-    QObject(QObject * = nullptr) { }
-    virtual ~QObject() { }
+    QThread *m_affinity;
+    bool m_deleted;
+    QObject(QObject * = nullptr) : m_affinity(nullptr), m_deleted(false) { }
+    virtual ~QObject() { m_deleted = true; }
+    virtual void customEvent(QEvent *) { }
+    virtual bool event(QEvent *) { return false; }
+    QThread *thread() const { return m_affinity; }
+    void moveToThread(QThread *t) { m_affinity = t; }
+    void deleteLater() { m_deleted = true; }       // the object is not freed in the model; QPointer sees it as gone
+    template<typename... A> static bool connect(const QObject *, const char *, const QObject *, const char *, A...) { return true; }   // string-based: not modelled
+    // typed connections used by OwnThreadHandler (defined after QThread / QCoreApplication)
+    template<typename F> static inline bool connect(QCoreApplication *sender, void (QCoreApplication::*)(), QObject *context, F f);
+    template<typename F> static inline bool connect(QThread *sender, void (QThread::*)(), F f);
+    static inline bool connect(QThread *sender, void (QThread::*)(), QThread *receiver, void (QObject::*slot)());
 };
+template<typename T> inline T qobject_cast(QObject *o) { return dynamic_cast<T>(o); }
+template<typename T> inline T qobject_cast(const QObject *o) { return dynamic_cast<T>(o); }
+
+class QEvent
+{
+public:
+    enum Type { None = 0, User = 1000, MaxUser = 65535 };
+    int m_type;
+    explicit QEvent(Type t) : m_type(int(t)) { }
+    virtual ~QEvent() { }
+    Type type() const { return Type(m_type); }
+    static int registerEventType(int hint = -1) { (void)hint; static int next = 1000; return next++; }
+};
+
+template<typename T> class QPointer
+{
+public:
+    T *m_p;
+    QPointer() : m_p(nullptr) { }
+    QPointer(T *p) : m_p(p) { }
+    QPointer &operator=(T *p) { m_p = p; return *this; }
+    T *data() const { return (m_p && !static_cast<QObject *>(m_p)->m_deleted) ? m_p : nullptr; }
+    T *operator->() const { T *p = data(); QM_ASSERT(p != nullptr, "QPointer::operator-> on a null / destroyed object"); return p; }
+    operator T *() const { return data(); }
+    bool isNull() const { return data() == nullptr; }
+    void clear() { m_p = nullptr; }
+};
+
+// ---------------------------------------------------------------- mutexes
+class QBasicMutexModel
+{
+public:
+    int m_owner; int m_depth; bool m_recursive;
+    QBasicMutexModel(bool rec) : m_owner(0), m_depth(0), m_recursive(rec) { }
+    void lock()
+    {
+        qm_yield(QM_Y_LOCK);
+        if (!m_recursive) QM_ASSERT(m_owner != qm_cur_tid, "non-recursive QMutex locked again by its owner (self-deadlock)");
+        // a step that would block is pruned (see the header comment): the same schedule with this step started later is explored instead
+        vf_assume(m_owner == 0 || m_owner == qm_cur_tid);
+        m_owner = qm_cur_tid; ++m_depth;
+    }
+    bool tryLock(int = 0) { if (m_owner != 0 && !(m_recursive && m_owner == qm_cur_tid)) return false; m_owner = qm_cur_tid; ++m_depth; return true; }
+    void unlock()
+    {
+        QM_ASSERT(m_owner == qm_cur_tid && m_depth > 0, "QMutex::unlock by a thread that does not hold it");
+        if (--m_depth == 0) m_owner = 0;
+        qm_yield(QM_Y_UNLOCK);
+    }
+};
+class QMutex : public QBasicMutexModel { public: enum RecursionMode { NonRecursive, Recursive }; QMutex(RecursionMode m = NonRecursive) : QBasicMutexModel(m == Recursive) { } };
+class QRecursiveMutex : public QBasicMutexModel { public: QRecursiveMutex() : QBasicMutexModel(true) { } };
+class QMutexLocker
+{
+    QBasicMutexModel *m_m; bool m_locked;
+public:
+    explicit QMutexLocker(QBasicMutexModel *m) : m_m(m), m_locked(false) { if (m_m) { m_m->lock(); m_locked = true; } }
+    ~QMutexLocker() { if (m_m && m_locked) m_m->unlock(); }
+    void unlock() { if (m_m && m_locked) { m_m->unlock(); m_locked = false; } }
+    void relock() { if (m_m && !m_locked) { m_m->lock(); m_locked = true; } }
+    QBasicMutexModel *mutex() const { return m_m; }
+private:
+    QMutexLocker(const QMutexLocker &) = delete;
+};
+
+// ---------------------------------------------------------------- atomics (sequentially consistent; each access is a yield point)
+class QAtomicInt
+{
+public:
+    int m_v;
+    QAtomicInt(int v = 0) : m_v(v) { }
+    int loadAcquire() const { qm_yield(QM_Y_ATOMIC); return m_v; }
+    int loadRelaxed() const { return m_v; }
+    int load() const { return m_v; }
+    void storeRelease(int v) { m_v = v; qm_yield(QM_Y_ATOMIC); }
+    int fetchAndAddOrdered(int d) { int o = m_v; m_v += d; qm_yield(QM_Y_ATOMIC); return o; }
+    int fetchAndSubOrdered(int d) { int o = m_v; m_v -= d; qm_yield(QM_Y_ATOMIC); return o; }
+    bool testAndSetOrdered(int e, int n) { if (m_v == e) { m_v = n; return true; } return false; }
+    bool ref() { return ++m_v != 0; }
+    bool deref() { return --m_v != 0; }
+};
+template<typename T> class QAtomicPointer
+{
+public:
+    T *m_p;
+    QAtomicPointer(T *p = nullptr) : m_p(p) { }
+    T *loadAcquire() const { return m_p; }
+    T *loadRelaxed() const { return m_p; }
+    void storeRelease(T *p) { m_p = p; }
+    bool testAndSetOrdered(T *e, T *n) { if (m_p == e) { m_p = n; return true; } return false; }
+};
+
+// ---------------------------------------------------------------- posted events (FIFO per equal priority) and threads
+#ifndef QM_EVQ_CAP
+#define QM_EVQ_CAP 4
+#endif
+struct QmPosted { QObject *receiver; QEvent *event; };
+inline QmPosted qm_evq[QM_EVQ_CAP];
+inline int qm_evq_n = 0;
+inline int qm_events_discarded = 0;      // events dropped because the thread ended or no application object exists
+inline QCoreApplication *qm_app = nullptr;
+
 class QThread : public QObject
 {
 public:
-    static Qt::HANDLE currentThreadId() { return reinterpret_cast<Qt::HANDLE>(qm_current_thread); }
+    bool m_running, m_quit, m_finished, m_terminated;
+    int m_tid;
+    std::function<void()> m_finishedSlots[3]; int m_nfinished;
+    QThread(QObject * = nullptr) : m_running(false), m_quit(false), m_finished(false), m_terminated(false), m_tid(0), m_nfinished(0) { m_affinity = qm_main_qthread; }
+    static Qt::HANDLE currentThreadId() { return reinterpret_cast<Qt::HANDLE>(quintptr(0x1000) * quintptr(qm_cur_tid)); }
+    static QThread *currentThread() { return nullptr; }
+    bool isRunning() const { return m_running && !m_finished; }
+    bool isFinished() const { return m_finished; }
+    void start() { static int nextTid = 100; if (!m_running) { m_running = true; m_finished = false; m_quit = false; m_tid = nextTid++; } }
+    void quit() { m_quit = true; qm_yield(QM_Y_POST); }
+    void exit(int = 0) { quit(); }
+    void requestInterruption() { }
+    static void msleep(unsigned long) { qm_yield(QM_Y_SLEEP); }
+    static void usleep(unsigned long) { qm_yield(QM_Y_SLEEP); }
+    static void sleep(unsigned long) { qm_yield(QM_Y_SLEEP); }
+    // wait(): gives the other threads QM_WAIT_ROUNDS chances to run; true iff the thread has finished
+#ifndef QM_WAIT_ROUNDS
+#define QM_WAIT_ROUNDS 3
+#endif
+    bool wait(unsigned long = ~0UL) { for (int k = 0; k < QM_WAIT_ROUNDS; ++k) if (m_running && !m_finished) qm_yield(QM_Y_WAIT); return !m_running || m_finished; }
+    void terminate() { m_terminated = true; m_finished = true; m_running = false; }
+    void finished() { }     // signal
+    void emitFinished() { for (int i = 0; i < 3; ++i) if (i < m_nfinished) m_finishedSlots[i](); }
+    // one step of this thread's event loop: deliver the oldest posted event of an object living in this thread, or finish
+    // after quit().  Returns false if there was nothing to do.
+    inline bool step();
 };
-template<typename T> inline T qobject_cast(QObject *o) { return dynamic_cast<T>(o); }
+
+class QCoreApplication : public QObject
+{
+public:
+    std::function<void()> m_aboutToQuitSlots[3]; int m_nabout;
+    QCoreApplication() : m_nabout(0) { qm_app = this; }
+    ~QCoreApplication() override { if (qm_app == this) qm_app = nullptr; }
+    static QCoreApplication *instance() { return qm_app; }
+    void aboutToQuit() { }  // signal
+    void emitAboutToQuit() { for (int i = 0; i < 3; ++i) if (i < m_nabout) m_aboutToQuitSlots[i](); }
+    static void postEvent(QObject *receiver, QEvent *event, int priority = Qt::NormalEventPriority)
+    {
+        (void)priority;
+        QM_ASSERT(receiver != nullptr && !receiver->m_deleted, "postEvent to a destroyed object");
+        QM_LIMIT(qm_evq_n < QM_EVQ_CAP);
+        for (int i = 0; i < QM_EVQ_CAP; ++i) if (i == qm_evq_n) { qm_evq[i].receiver = receiver; qm_evq[i].event = event; }
+        ++qm_evq_n;
+        qm_yield(QM_Y_POST);
+    }
+    static QString applicationName() { return QString::fromLatin1("app"); }
+    static QString applicationVersion() { return QString::fromLatin1("1"); }
+    static QString organizationName() { return QString::fromLatin1("org"); }
+    static QString applicationDirPath() { return QString::fromLatin1("/d"); }
+    static QString applicationFilePath() { return QString::fromLatin1("/d/app"); }
+    static qint64 applicationPid() { return 42; }
+};
+#define qApp (QCoreApplication::instance())
+
+inline bool QThread::step()
+{
+    if (!m_running || m_finished) return false;
+    if (m_quit) {
+        // QEventLoop::exit(): the loop ends; events still queued for objects of this thread are never delivered
+        for (int i = 0; i < QM_EVQ_CAP; ++i) if (i < qm_evq_n && qm_evq[i].receiver->m_affinity == this) ++qm_events_discarded;
+        int k = 0;
+        for (int i = 0; i < QM_EVQ_CAP; ++i) if (i < qm_evq_n && qm_evq[i].receiver->m_affinity != this) { if (k != i) qm_evq[k] = qm_evq[i]; ++k; }
+        qm_evq_n = k;
+        m_finished = true; m_running = false;
+        int saved = qm_cur_tid; qm_cur_tid = m_tid;
+        emitFinished();
+        qm_cur_tid = saved;
+        return true;
+    }
+    int idx = -1;
+    for (int i = 0; i < QM_EVQ_CAP; ++i) if (idx < 0 && i < qm_evq_n && qm_evq[i].receiver->m_affinity == this) idx = i;
+    if (idx < 0) return false;
+    QObject *r = nullptr; QEvent *e = nullptr;
+    for (int i = 0; i < QM_EVQ_CAP; ++i) if (i == idx) { r = qm_evq[i].receiver; e = qm_evq[i].event; }
+    for (int i = 0; i < QM_EVQ_CAP - 1; ++i) if (i >= idx && i < qm_evq_n - 1) qm_evq[i] = qm_evq[i + 1];
+    --qm_evq_n;
+    if (qm_app == nullptr) { ++qm_events_discarded; return true; }      // Qt: without a QCoreApplication, events in secondary threads are discarded
+    int saved = qm_cur_tid; qm_cur_tid = m_tid;
+    r->customEvent(e);
+    qm_cur_tid = saved;
+    return true;
+}
+
+template<typename F> inline bool QObject::connect(QCoreApplication *sender, void (QCoreApplication::*)(), QObject *, F f)
+{
+    QM_LIMIT(sender->m_nabout < 3);
+    for (int i = 0; i < 3; ++i) if (i == sender->m_nabout) sender->m_aboutToQuitSlots[i] = std::function<void()>(f);
+    ++sender->m_nabout; return true;
+}
+template<typename F> inline bool QObject::connect(QThread *sender, void (QThread::*)(), F f)
+{
+    QM_LIMIT(sender->m_nfinished < 3);
+    for (int i = 0; i < 3; ++i) if (i == sender->m_nfinished) sender->m_finishedSlots[i] = std::function<void()>(f);
+    ++sender->m_nfinished; return true;
+}
+inline bool QObject::connect(QThread *sender, void (QThread::*sig)(), QThread *receiver, void (QObject::*slot)())
+{
+    return connect(sender, sig, [receiver, slot]() { (receiver->*slot)(); });
+}
+
+// Qt's global message handler
+inline QtMessageHandler qm_installed_handler = nullptr;
+inline QtMessageHandler qInstallMessageHandler(QtMessageHandler h) { QtMessageHandler old = qm_installed_handler; qm_installed_handler = h; return old; }
+inline QString qm_message_pattern;
+inline void qSetMessagePattern(const QString &p) { qm_message_pattern = p; }
+inline QString qFormatLogMessage(QtMsgType, const QMessageLogContext &, const QString &msg) { return msg; }
+class QLoggingCategory { public: static void setFilterRules(const QString &) { } };
+class QSysInfo
+{
+public:
+    static QString productType() { return QString::fromLatin1("os"); } static QString productVersion() { return QString::fromLatin1("1"); }
+    static QString kernelType() { return QString::fromLatin1("k"); } static QString kernelVersion() { return QString::fromLatin1("1"); }
+    static QString currentCpuArchitecture() { return QString::fromLatin1("x"); } static QString buildAbi() { return QString::fromLatin1("x"); }
+    static QString buildCpuArchitecture() { return QString::fromLatin1("x"); } static QString prettyProductName() { return QString::fromLatin1("os"); }
+    static QString machineHostName() { return QString::fromLatin1("h"); } static QByteArray machineUniqueId() { return QByteArray("m"); } static QByteArray bootUniqueId() { return QByteArray("b"); }
+};
+class QUrl { public: QString m_s; QUrl() { } QUrl(const QString &s) : m_s(s) { } };
+inline const char *qPrintable_helper(const QString &) { return ""; }
+#define qPrintable(s) qPrintable_helper(s)
